@@ -115,6 +115,13 @@ type scenRun struct {
 	conns    map[string]net.Conn
 	answered map[string]bool
 	probes   int
+	mch      *muc.Channel // the room the application joined (mucjoin)
+}
+
+func (sr *scenRun) room() *muc.Channel {
+	sr.mu.Lock()
+	defer sr.mu.Unlock()
+	return sr.mch
 }
 
 // acceptLoop accepts every incoming stream of one listener: in, in2, in3, …
@@ -289,7 +296,33 @@ var localCalls = map[string]func(ctx context.Context, sr *scenRun, arg string){
 		_ = sr.fx.rs.S.Close()
 	},
 	"mucjoin": func(ctx context.Context, sr *scenRun, _ string) {
-		_, _ = sr.p.mc.Join(ctx, room, sr.fx.rs.S)
+		ch, _ := sr.p.mc.Join(ctx, room, sr.fx.rs.S)
+		sr.mu.Lock()
+		sr.mch = ch
+		sr.mu.Unlock()
+	},
+	// calls on a room the application has joined (or tried to): join again under another
+	// nickname (arg) or under the same one (no arg), leave, and the state readers an
+	// application polls while it waits
+	"mucrenick": func(ctx context.Context, sr *scenRun, arg string) {
+		if ch := sr.room(); ch != nil {
+			if arg == "" {
+				_ = ch.Join(ctx)
+			} else {
+				_ = ch.Join(ctx, muc.Nick(arg))
+			}
+		}
+	},
+	"mucleave": func(ctx context.Context, sr *scenRun, _ string) {
+		if ch := sr.room(); ch != nil {
+			_ = ch.Leave(ctx, "")
+		}
+	},
+	"mucstate": func(ctx context.Context, sr *scenRun, _ string) {
+		if ch := sr.room(); ch != nil {
+			_ = ch.Me()
+			_ = ch.Joined()
+		}
 	},
 	"hist": func(ctx context.Context, sr *scenRun, arg string) {
 		it := sr.p.hh.Fetch(ctx, history.Query{ID: "hq1"}, remote, sr.fx.rs.S)
@@ -484,7 +517,15 @@ func runScenario(steps []string) outcome {
 			if err != nil {
 				return outcome{panicMsg: "harness: bad step " + st}
 			}
-			if !sr.awaitOut(func(out string) bool { return strings.Contains(out, want) }) {
+			// "await:<hex>" = the text is on the wire; "await:<hex>:<n>" = at least n times (a
+			// second request of the same shape, e.g. a re-join)
+			times := 1
+			if len(f) > 2 {
+				if times, err = strconv.Atoi(f[2]); err != nil {
+					return outcome{panicMsg: "harness: bad step " + st}
+				}
+			}
+			if !sr.awaitOut(func(out string) bool { return strings.Count(out, want) >= times }) {
 				// a call that panicked explains the silence
 				for _, c := range sr.calls {
 					select {
@@ -669,6 +710,8 @@ func hx(s string) string { return hex.EncodeToString([]byte(s)) }
 
 func feed(s string) string  { return "feed:" + hx(s) }
 func await(s string) string { return "await:" + hx(s) }
+
+func awaitN(s string, n int) string { return "await:" + hx(s) + ":" + strconv.Itoa(n) }
 func auto(text, typ, payload string) string {
 	return "auto:" + replyto(text, typ, payload)[len("replyto:"):]
 }
@@ -855,6 +898,23 @@ func scenarioList() []scenario {
 		sc("muc-join-cancelled-then-presence", "call:mucjoin", await(`to="room@conf.example/nick"`), "cancel:mucjoin", "wait:mucjoin", feed(mucPresence("room@conf.example/nick", "", true)), feed(mucPresence("room@conf.example/nick", "unavailable", true))),
 		sc("muc-join-error-presence", "call:mucjoin", await(`to="room@conf.example/nick"`), feed(`<presence xmlns="jabber:client" from="room@conf.example/nick" type="error">`+errPayload+`</presence>`), "probe", "cancel:mucjoin", "wait:mucjoin"),
 	)
+	// --- muc: calls on a joined room (change of nickname, re-join, leave) x presences of the
+	// nickname held, the nickname asked for, and other occupants ------------------------------
+	joined := []string{"call:mucjoin", await(`to="room@conf.example/nick"`), feed(mucPresence("room@conf.example/nick", "", true)), "wait:mucjoin"}
+	withJoined := func(name string, steps ...string) scenario {
+		return sc(name, append(append([]string(nil), joined...), steps...)...)
+	}
+	l = append(l,
+		withJoined("muc-renick-confirmed", "call:mucrenick.nick2", await(`to="room@conf.example/nick2"`), feed(mucPresence("room@conf.example/nick", "unavailable", true)), feed(mucPresence("room@conf.example/nick2", "", true)), "wait:mucrenick.nick2", "call:mucstate", "wait:mucstate"),
+		withJoined("muc-renick-old-nick-presence-first", "call:mucrenick.nick2", await(`to="room@conf.example/nick2"`), feed(mucPresence("room@conf.example/nick", "", true)), "probe", "call:mucstate", "wait:mucstate", feed(mucPresence("room@conf.example/nick2", "", true)), "wait:mucrenick.nick2"),
+		withJoined("muc-renick-refused", "call:mucrenick.nick2", await(`to="room@conf.example/nick2"`), feed(`<presence xmlns="jabber:client" from="room@conf.example/nick2" type="error">`+errPayload+`</presence>`), feed(mucPresence("room@conf.example/nick", "", true)), "probe", "cancel:mucrenick.nick2", "wait:mucrenick.nick2", feed(mucPresence("room@conf.example/nick2", "", true))),
+		withJoined("muc-renick-cancelled-then-presences", "call:mucrenick.nick2", await(`to="room@conf.example/nick2"`), "cancel:mucrenick.nick2", "wait:mucrenick.nick2", feed(mucPresence("room@conf.example/nick", "", true)), feed(mucPresence("room@conf.example/nick2", "", true)), feed(mucPresence("room@conf.example/nick", "", true))),
+		withJoined("muc-renick-twice", "call:mucrenick.nick2", await(`to="room@conf.example/nick2"`), feed(mucPresence("room@conf.example/nick2", "", true)), "wait:mucrenick.nick2", "call:mucrenick.nick3", await(`to="room@conf.example/nick3"`), feed(mucPresence("room@conf.example/nick", "", true)), feed(mucPresence("room@conf.example/nick2", "", true)), "probe", feed(mucPresence("room@conf.example/nick3", "", true)), "wait:mucrenick.nick3"),
+		withJoined("muc-rejoin-same-nick", "call:mucrenick", awaitN(`to="room@conf.example/nick"`, 2), feed(mucPresence("room@conf.example/other", "", false)), feed(mucPresence("room@conf.example/nick", "", true)), "wait:mucrenick", feed(mucPresence("room@conf.example/nick", "", true))),
+		withJoined("muc-leave-confirmed", "call:mucleave", await(`type="unavailable"`), feed(mucPresence("room@conf.example/nick", "", true)), feed(mucPresence("room@conf.example/nick", "unavailable", true)), "wait:mucleave", "call:mucstate", "wait:mucstate", feed(mucPresence("room@conf.example/nick", "", true))),
+		withJoined("muc-leave-then-rejoin", "call:mucleave", await(`type="unavailable"`), feed(mucPresence("room@conf.example/nick", "unavailable", true)), "wait:mucleave", "call:mucrenick", awaitN(`to="room@conf.example/nick"`, 3), feed(mucPresence("room@conf.example/nick", "", true)), "wait:mucrenick"),
+		withJoined("muc-leave-cancelled", "call:mucleave", await(`type="unavailable"`), "cancel:mucleave", "wait:mucleave", feed(mucPresence("room@conf.example/nick", "unavailable", true)), feed(mucPresence("room@conf.example/nick", "unavailable", true))),
+	)
 	// --- history -----------------------------------------------------------------------------
 	l = append(l,
 		sc("history-unknown-query-id", feed(mamResult("nope")), feed(mamResult("")), feed(mamResult("nope"))),
@@ -917,6 +977,7 @@ func pendingMatrix() []scenario {
 	outStream := []string{"call:ibbopen", await(`id="o1"`), feed(iq("result", "o1", "")), "wait:ibbopen"}
 	errAnswer := func(text string) []string { return []string{replyto(text, "error", errPayload)} }
 	okAnswer := func(text string) []string { return []string{auto(text, "result", "")} }
+	mucJoined := []string{"call:mucjoin", await(`to="room@conf.example/nick"`), feed(mucPresence("room@conf.example/nick", "", true)), "wait:mucjoin"}
 	calls := []pcall{
 		{"uiq", nil, "uiq", `id="q1"`, errAnswer(`id="q1"`)},
 		{"roster", nil, "roster", `id="q2"`, []string{replyto(`id="q2"`, "result", rosterPayload)}},
@@ -928,6 +989,11 @@ func pendingMatrix() []scenario {
 		{"ibbopen", nil, "ibbopen", `id="o1"`, errAnswer(`id="o1"`)},
 		{"mucjoin", nil, "mucjoin", `to="room@conf.example/nick"`, []string{feed(mucPresence("room@conf.example/nick", "", true))}},
 		{"hist", nil, "hist", "hq1", errAnswer("hq1")},
+		// calls on a room that is already joined: the handler's table holds state from the
+		// earlier stanzas (the nickname held) next to the request that is pending
+		{"mucrenick", mucJoined, "mucrenick.nick2", `to="room@conf.example/nick2"`, []string{feed(mucPresence("room@conf.example/nick2", "", true))}},
+		{"mucrejoin", mucJoined, "mucrenick", `to="room@conf.example/nick"`, []string{feed(mucPresence("room@conf.example/nick", "", true))}},
+		{"mucleave", mucJoined, "mucleave", `type="unavailable"`, []string{feed(mucPresence("room@conf.example/nick", "unavailable", true))}},
 		{"ibbflush-in", inStream, "ibbwrite.in", "<data", errAnswer("<data")},
 		{"ibbflush-in-acked", inStream, "ibbwrite.in", "<data", okAnswer("<data")},
 		{"ibbflush-out", outStream, "ibbwrite.out", "<data", errAnswer("<data")},
@@ -936,6 +1002,8 @@ func pendingMatrix() []scenario {
 		{"ibbclose-in", inStream, "ibbclose.in", "<close", errAnswer("<close")},
 		{"ibbclose-out", outStream, "ibbclose.out", "<close", []string{replyto("<close", "result", "")}},
 	}
+	// the request text of these calls is already on the wire once from their prelude
+	requestTimes := map[string]int{"mucrejoin": 2}
 	type pstanza struct{ name, xml string }
 	errMsg := func(id string) string {
 		return `<message xmlns="jabber:client" type="error" id="` + id + `" from="example.net">` + errPayload + `</message>`
@@ -955,6 +1023,9 @@ func pendingMatrix() []scenario {
 		{"muc-self", mucPresence("room@conf.example/nick", "", true)},
 		{"muc-unavailable", mucPresence("room@conf.example/nick", "unavailable", true)},
 		{"muc-error", `<presence xmlns="jabber:client" from="room@conf.example/nick" type="error">` + errPayload + `</presence>`},
+		{"muc-newnick", mucPresence("room@conf.example/nick2", "", true)},
+		{"muc-newnick-unavailable", mucPresence("room@conf.example/nick2", "unavailable", true)},
+		{"muc-occupant", mucPresence("room@conf.example/other", "", false)},
 		{"roster-push", iq("set", "rp1", `<query xmlns="jabber:iq:roster"><item jid="a@b"/></query>`)},
 		{"disco-info", iq("get", "di1", `<query xmlns="http://jabber.org/protocol/disco#info"/>`)},
 		{"version", iq("get", "v1", `<query xmlns="jabber:iq:version"/>`)},
@@ -964,7 +1035,11 @@ func pendingMatrix() []scenario {
 	for _, pc := range calls {
 		for _, ps := range stanzas {
 			steps := append([]string(nil), pc.prelude...)
-			steps = append(steps, "call:"+pc.call, await(pc.request), feed(ps.xml), "probe")
+			aw := await(pc.request)
+			if n := requestTimes[pc.name]; n > 1 {
+				aw = awaitN(pc.request, n)
+			}
+			steps = append(steps, "call:"+pc.call, aw, feed(ps.xml), "probe")
 			steps = append(steps, pc.answer...)
 			// twice: the peer may repeat itself once the answer is under way; the second probe
 			// makes sure Serve has consumed the answer before the call's context is cancelled (a
